@@ -95,6 +95,7 @@ type Path struct {
 	strConsts  map[string]*Object
 	typeIDs    map[string]int
 	lockEvents bool
+	guardedMaps map[*MapObj]string // vf.GuardMap: accesses are recorded as events "map:<name>"
 	guard      *Term // extra guard active during merged (speculative) evaluation; nil otherwise
 	noFork     bool  // set during speculative merge evaluation
 	concArr    map[int]*Term
